@@ -202,6 +202,10 @@ def classify(arena, act, args, src, code, obs, bad_fields=None):
         # the specification refuses these with 400 before anything else is looked at
         if (act == "configure" and code in (200, 500)) or (act == "validate" and code == 200 and not enabled):
             return "tls-plain-dns-off-without-encrypted-dns-accepted"
+    disk = (src or {}).get("disk") or {}
+    if act in ("configure", "validate") and enabled and code in (200, 500) and any(
+            args.get(k) == "pb" and disk.get(k) == "pb" for k in ("https", "dot", "doq")):
+        return "tls-unavailable-port-stored-while-disabled-is-not-checked-when-enabled"
     if act == "configure" and enabled and code == 500:
         cert = "none" if args.get("csrc") == "none" else args.get("cert")
         key = _resolved_key(args, cur)
@@ -305,9 +309,12 @@ def post(ctx, arena, prepared, rows, trace, trace_n, guard):
         raise vlib.Inconclusive("arena %s wrote no summary" % arena)
     summ = summ[0]
     stats = summ["stats"]
-    if stats.get("steps", 0) == 0:
+    hung = bool(stats.get("hung"))
+    if stats.get("steps", 0) == 0 and not hung:
         raise vlib.Inconclusive("arena %s executed no step" % arena)
     missed = summ.get("missed") or []
+    if summ.get("vectors") == 0:
+        missed = [w["id"] for w in vecs if w["want"]]      # the recording already ended the process
     bads = [r for r in rows if r.get("kind") in ("bad", "badfields")]
 
     # ---- direction A: group the disagreeing steps
@@ -332,7 +339,7 @@ def post(ctx, arena, prepared, rows, trace, trace_n, guard):
 
     # ---- direction B: validate the recorded history, group the rejected lines
     lines = vlib.read_ndjson(trace)
-    if len(lines) < trace_n // 2:
+    if len(lines) < trace_n // 2 and not hung:
         raise vlib.Inconclusive("arena %s: the trace driver produced %d lines" % (arena, len(lines)))
     verdict = validate_trace(ctx, arena, trace)
     if verdict["n"] != len(lines):
@@ -439,7 +446,7 @@ def post(ctx, arena, prepared, rows, trace, trace_n, guard):
         samples.append({"trace_line": {k: steps[len(steps) // 2].get(k) for k in ("act", "req", "code", "obs")}})
     cov = {
         "states": nstates, "vectors": len(vecs), "vectors_selected": sum(1 for w in vecs if w["want"]), "vectors_missed": len(missed),
-        "walk": stats, "behaviours": stats.get("resets", 0), "steps": stats["steps"],
+        "walk": stats, "behaviours": stats.get("resets", 0), "steps": stats.get("steps", 0),
         "disagreeing_steps": len(bads), "disagreement_groups": len(groups), "reproduced_groups": len(reproduced), "flaky_steps": flaky,
         "trace_lines": len(lines), "trace_behaviours": tb, "trace_lines_rejected": len(tbad),
         "trace_lines_skipped_after_rejection": verdict.get("skipped", 0), "trace_groups": len(tgroups),
